@@ -20,7 +20,8 @@ PY
 echo "setup: building $REG"
 cargo build --release $REG 2>&1 | tail -2
 if echo "$REG" | grep -q pvc-hal && grep -q '"property_id": "C17"' ../MANIFEST.json; then
-  echo "setup: building the AddressSanitizer variant of pvc-hal (C17)"
+  ASAN_PKGS="$(sed -n 's/^  C17) GROUPS="\(.*\)" ;;/\1/p' ../check | tr ' ' '\n' | sed 's/^/-p pvc-/' | tr '\n' ' ')"
+  echo "setup: building the AddressSanitizer variants for C17: $ASAN_PKGS"
   RUSTFLAGS="-C target-feature=+avx2,+fma -Zsanitizer=address" CARGO_TARGET_DIR=target-asan \
-    cargo build --release -p pvc-hal --target x86_64-unknown-linux-gnu 2>&1 | tail -2
+    cargo build --release $ASAN_PKGS -p pvc-engine --target x86_64-unknown-linux-gnu 2>&1 | tail -2
 fi
